@@ -24,6 +24,7 @@ import NakenVerif.Safe.ProofsCmdLoops
 import NakenVerif.Safe.TiTxt
 import NakenVerif.FileIO.BinImpl
 import NakenVerif.Generated.UtilTable
+import NakenVerif.Generated.UtilCommands
 import NakenVerif.Generated.Limits
 
 namespace NakenVerif.C17
@@ -167,35 +168,36 @@ example : (Cmd.write true (fun _ => none) 1 0 1 "0x10 1 0x22 51 -1".toUTF8.data)
     (fun | .wrote c a w => (c, a, w) | _ => (0, 0, [])) = some (4, 16, [(19, 4294967295), (18, 51), (17, 34), (16, 1)]) := by
   decide +kernel
 
-theorem print8_total (start stop : Nat) (h : stop < 4294967296) : ∃ r, Cmd.print 20 1 1 15 0 false start stop = .ok r :=
-  Cmd.print8_total start stop h
-theorem print16_total (alignMask start stop : Nat) (h : stop < 4294967296) :
-    ∃ r, Cmd.print 20 2 2 15 alignMask true start stop = .ok r := Cmd.print16_total alignMask start stop h
-theorem print32_total (alignMask start stop : Nat) (h : stop < 4294967296) :
-    ∃ r, Cmd.print 20 4 2 7 alignMask true start stop = .ok r := Cmd.print32_total alignMask start stop h
+/-- `print <range>` for every `(start, end)` and every `bytes_per_address`: `chars[20]` in bounds, the loop ends -/
+theorem print8_total (bpa start stop : Nat) : ∃ r, Cmd.print 20 1 1 15 0 bpa false start stop = .ok r :=
+  Cmd.print8_total bpa start stop
+theorem print16_total (alignMask bpa start stop : Nat) :
+    ∃ r, Cmd.print 20 2 2 15 alignMask bpa true start stop = .ok r := Cmd.print16_total alignMask bpa start stop
+theorem print32_total (alignMask bpa start stop : Nat) :
+    ∃ r, Cmd.print 20 4 2 7 alignMask bpa true start stop = .ok r := Cmd.print32_total alignMask bpa start stop
 
 /-- `print16 0xfffffffe-0xffffffff` before the fix: `start += 2` wraps to 0, the loop never ends -/
 theorem print16_unguarded_counterexample :
-    faultOf (Cmd.print 20 2 2 15 0 false 0xfffffffe 0xffffffff) = some .outOfFuel := by decide +kernel
+    faultOf (Cmd.print 20 2 2 15 0 1 false 0xfffffffe 0xffffffff) = some .outOfFuel := by decide +kernel
 
-example : (Cmd.print 20 2 2 15 0 true 0xfffffffe 0xffffffff).toOption.map (fun o => o.map (·.items)) = some (some 1) := by
+example : (Cmd.print 20 2 2 15 0 1 true 0xfffffffe 0xffffffff).toOption.map (fun o => o.map (·.items)) = some (some 1) := by
   decide +kernel
 
 /-- the page walk of `disasm` without a range ends for every `(start, end)`; `pageSize` is the regenerated PAGE_SIZE -/
-theorem disasm_walk_total (inUse : Nat → Bool) (start0 start stop : Nat) (h : start < 4294967296) :
-    ∃ r, Cmd.walk inUse Generated.pageSize true start0 start stop = .ok r :=
-  Cmd.walk_total inUse start0 start stop h
+theorem disasm_walk_total (inUse : Nat → Bool) (start stop : Nat) (h : start < 4294967296) :
+    ∃ r, Cmd.walk inUse Generated.pageSize true start stop = .ok r :=
+  Cmd.walk_total inUse start stop h
 
 /-- before the fix the walk wraps around at the page `0xffff0000` (shown on a 2-page address space model: the
 loop structure does not depend on the page size) -/
 theorem walk_unguarded_counterexample :
-    faultOf (Cmd.walk (fun _ => true) 2147483648 false 0x80000000 0x80000000 0xffffffff) = some .outOfFuel := by decide +kernel
+    faultOf (Cmd.walk (fun _ => true) 2147483648 false 0x80000000 0xffffffff) = some .outOfFuel := by decide +kernel
 
 /-- the command table has no two rows with the same name (so the first match of `is_command_valid` is the only one),
 `quit` and `exit` exist and take no argument -/
 theorem command_table_unambiguous :
-    (Generated.commandNames.map (·.1)).Nodup ∧
-    ("quit", false, false) ∈ Generated.commandNames ∧ ("exit", false, false) ∈ Generated.commandNames := by
+    (Generated.utilCommands.map (·.1)).Nodup ∧
+    ("quit", false, false) ∈ Generated.utilCommands ∧ ("exit", false, false) ∈ Generated.utilCommands := by
   decide
 
 /-! ### Left in the code (known finding): the per-CPU `disasm_range` loops
